@@ -138,6 +138,9 @@ Lemma Jb_react_shut_wake c n p s y :
   Jb (fst (fst (react_shut_wake c n p s))) y = Jb s y.
 Proof. unfold react_shut_wake. destruct p; reflexivity. Qed.
 
+Lemma Jb_react_shut_wake_f c n p s : Jb (fst (fst (react_shut_wake c n p s))) = Jb s.
+Proof. unfold react_shut_wake. destruct p; reflexivity. Qed.
+
 Lemma Jb_react_shut_cancel c n s : Jb (fst (react_shut_cancel c n s)) = Jb s.
 Proof. reflexivity. Qed.
 
@@ -328,7 +331,8 @@ Inductive jeff (c : cfg) (s s' : state) (x : nat) (sub : Prop) : Prop :=
               (exists n, In x (pend (Rn s n)) /\ ph (Rn s' n) <> PMain /\ ph (Rn s' n) <> PIdle) ->
               jeff c s s' x sub
 | JE_uncp : sub -> st (Jb s x) = Running -> j_sched (jc c x) = true -> cp (Jb s x) = true ->
-            Jb s' x = mkJst Running false (tend (Jb s x)) (ran (Jb s x)) -> jeff c s s' x sub
+            Jb s' x = mkJst Running false (tend (Jb s x)) (ran (Jb s x)) ->
+            (ph (Rn s' x) = PCTidy \/ rcanc (Rn s' x) = true) -> jeff c s s' x sub
 | JE_create_main : st (Jb s x) = Idle -> Jb s' x = mkJst Created false None false ->
                    all_done s (reqs c x) = true -> In x (members c (parent c x)) ->
                    ph (Rn s (parent c x)) = PMain -> ph (Rn s' (parent c x)) = PMain ->
@@ -345,7 +349,8 @@ Inductive jeff (c : cfg) (s s' : state) (x : nat) (sub : Prop) : Prop :=
                   members c x = [] ->
                   Jb s' x = mkJst (DoneRet RVTrue) false None true -> jeff c s s' x sub
 | JE_done : sub -> st (Jb s x) = Running -> cp (Jb s x) = false ->
-            is_done (st (Jb s' x)) = true -> cp (Jb s' x) = false -> ran (Jb s' x) = true -> jeff c s s' x sub
+            is_done (st (Jb s' x)) = true -> cp (Jb s' x) = false -> ran (Jb s' x) = true ->
+            (j_sched (jc c x) = true -> rcanc (Rn s x) = false /\ ph (Rn s x) <> PCTidy) -> jeff c s s' x sub
 | JE_hit : sub -> st (Jb s x) = Running -> cp (Jb s x) = true -> j_sched (jc c x) = false ->
            st (Jb s' x) = Cancelling -> cp (Jb s' x) = false -> ran (Jb s' x) = true -> jeff c s s' x sub
 | JE_cancelled : sub ->
@@ -497,9 +502,10 @@ Qed.
 
 Lemma jeff_finish_run c s0 s n w r cu x :
   Jb s0 = Jb s -> (n <> 0 -> st (Jb s n) = Running /\ cp (Jb s n) = false) ->
+  rcanc (Rn s n) = false -> ph (Rn s n) <> PCTidy ->
   jeff c s (fst (finish_run c n w r cu s0)) x (x = n).
 Proof.
-  intros EJ Hr. pose proof (Jb_finish_run c n w r cu s0 x) as E. rewrite EJ in E.
+  intros EJ Hr Hnrc Hnct. pose proof (Jb_finish_run c n w r cu s0 x) as E. rewrite EJ in E.
   destruct (Nat.eqb_spec n 0) as [->|Hn0]; [apply JE_same; exact E|].
   destruct (Nat.eqb_spec x n) as [->|Hxn]; [|apply JE_same; exact E].
   destruct (Hr Hn0) as [H1 H2].
@@ -527,18 +533,21 @@ Lemma jeff_shut c s n p cu x :
 Proof.
   intros Hi. unfold react_shut.
   pose proof (fun y => Jb_react_shut_wake c n p s y) as E1.
-  destruct (react_shut_wake c n p s) as [[s1 res] mo1]. cbn [fst] in E1.
+  pose proof (Jb_react_shut_wake_f c n p s) as E1f.
+  destruct (react_shut_wake c n p s) as [[s1 res] mo1]. cbn [fst] in E1, E1f.
   assert (EJ : forall y, Jb s1 y = Jb s y) by exact E1.
   destruct res as [r|]; [|apply JE_same; apply EJ].
   destruct (sd_inline s n) eqn:Ein.
   - destruct (run_alive_false _ _ _ (Hi eq_refl)) as (Hs & Hn & Hr).
-    pose proof (Jb_finish_run c n (why_of s n) r cu s1 x) as E.
-    destruct (finish_run c n (why_of s n) r cu s1) as [s2 mo2]. cbn [fst] in *.
-    rewrite !EJ in E.
-    destruct (Nat.eqb_spec n 0) as [->|Hn0]; [apply JE_same; exact E|].
-    destruct (Nat.eqb_spec x n) as [->|Hxn]; [|apply JE_same; exact E].
-    destruct (Hr Hn0) as [H1 H2].
-    apply JE_done; auto; rewrite E; cbn [st cp ran]; auto. apply verdict_done.
+    destruct (rcanc (Rn s n)) eqn:Erc.
+    + assert (Hcan : jeff c s (fst (end_cancelled c n s1)) x (x = n)).
+      { apply jeff_end_cancelled;
+          [intros y _; apply EJ | exact Hs | intros Hn0; apply Hr; exact Hn0
+          | intros _; exact E1f | right; right; exact Erc]. }
+      destruct (end_cancelled c n s1) as [s2 mo2]. exact Hcan.
+    + assert (Hfin : jeff c s (fst (finish_run c n (why_of s n) r cu s1)) x (x = n)).
+      { apply jeff_finish_run; auto. unfold sd_inline in Ein. destruct (ph (Rn s n)); discriminate. }
+      destruct (finish_run c n (why_of s n) r cu s1) as [s2 mo2]. exact Hfin.
   - apply JE_same. cbn [fst]. rewrite Jb_hdone. apply EJ.
 Qed.
 
@@ -557,7 +566,7 @@ Proof.
           [intros y _; rewrite EJ; reflexivity | exact Hs | intros Hn0; apply Hr; exact Hn0
           | intros _; exact EJ | right; right; exact Erc]. }
       destruct (end_cancelled c n s1) as [s2 mo2]. exact Hcan.
-    + apply jeff_finish_run; auto.
+    + apply jeff_finish_run; auto. unfold sd_inline in Ein. destruct (ph (Rn s n)); discriminate.
   - apply JE_same. cbn [fst]. rewrite Jb_hdone, EJ. reflexivity.
 Qed.
 
@@ -570,9 +579,10 @@ Lemma jeff_cancel_list c s n l x s' :
   (forall y, In y l -> In y (pend (Rn s n))) ->
   Jb s' x = Jb (mapJ cancel_j l (clear_cp s n)) x ->
   ph (Rn s' n) <> PMain -> ph (Rn s' n) <> PIdle ->
+  (ph (Rn s' n) = PCTidy \/ rcanc (Rn s' n) = true) ->
   jeff c s s' x (x = n).
 Proof.
-  intros W Hp Ha Hl E P1 P2. destruct (run_alive_true _ _ _ Ha) as (Hs & Hn & Hn0 & Hst & Hcp).
+  intros W Hp Ha Hl E P1 P2 P3. destruct (run_alive_true _ _ _ Ha) as (Hs & Hn & Hn0 & Hst & Hcp).
   rewrite Jb_mapJ, Jb_clear_cp in E.
   apply rootb_false in Hn0. rewrite Hn0 in E. apply rootb_false in Hn0.
   destruct (memb x l) eqn:Ex.
@@ -599,7 +609,7 @@ Proof.
       apply Nat.eqb_neq in Hy. rewrite Hy. reflexivity.
     + intros E0. contradiction.
   - rewrite <- Eu in *. cbn [fst].
-    eapply jeff_cancel_list; eauto; rewrite Rn_setR_same; discriminate.
+    eapply jeff_cancel_list; eauto; rewrite Rn_setR_same; try discriminate. left. reflexivity.
 Qed.
 
 Lemma jeff_cancel_tidy c s n x :
@@ -608,7 +618,8 @@ Lemma jeff_cancel_tidy c s n x :
   jeff c s (fst (react_cancel_tidy c n s)) x (x = n).
 Proof.
   intros W Hp Ha [w Hph]. unfold react_cancel_tidy. cbn [fst].
-  eapply jeff_cancel_list; eauto; rewrite Rn_setR_same; cbn [ph]; rewrite Rn_clear_cp, Hph; discriminate.
+  eapply jeff_cancel_list; eauto; rewrite Rn_setR_same; cbn [ph rcanc]; try (rewrite Rn_clear_cp, Hph; discriminate).
+  right. reflexivity.
 Qed.
 
 Lemma jeff_cancel_ctidy c s n x :
@@ -616,7 +627,7 @@ Lemma jeff_cancel_ctidy c s n x :
   jeff c s (fst (react_cancel_ctidy c n s)) x (x = n).
 Proof.
   intros W Hp Ha Hph. unfold react_cancel_ctidy. cbn [fst].
-  eapply jeff_cancel_list; eauto; rewrite Rn_mapJ, Rn_clear_cp, Hph; discriminate.
+  eapply jeff_cancel_list; eauto; rewrite Rn_mapJ, Rn_clear_cp, Hph; try discriminate. left. reflexivity.
 Qed.
 
 Lemma jeff_cancel_shut c s n x :
@@ -630,7 +641,7 @@ Proof.
       assert (E1 : Jb (fst (react_shut_cancel c n S0)) = Jb (clear_cp s n)) by reflexivity end.
     pose proof (Jb_clear_cp s n x) as E. apply rootb_false in Hn0. rewrite Hn0 in E.
     destruct (Nat.eqb_spec x n) as [->|Hxn]; [|apply JE_same; rewrite E1; exact E].
-    apply JE_uncp; auto. rewrite E1, E, Hst. reflexivity.
+    apply JE_uncp; auto; [rewrite E1, E, Hst; reflexivity|]. right. cbn [Rn react_shut_cancel fst setS mapH]. unfold react_shut_cancel. cbn [fst Rn setS mapH]. rewrite Rn_setR_same. reflexivity.
   - apply JE_same. reflexivity.
 Qed.
 
@@ -690,8 +701,9 @@ Proof.
                 upd (Jb s) j (mkJst (match oc with ORet => DoneRet RVOwn | OExc => DoneExc (tag_job j) end) false None true) y) by reflexivity.
     destruct (Nat.eqb_spec x j) as [->|Hx]; [|apply JE_same; rewrite E, upd_other by exact Hx; reflexivity].
     destruct (st (Jb s j)) eqn:Est; try discriminate. apply negb_true_iff in G0.
-    apply JE_done; auto; rewrite E, upd_same; cbn [st cp ran]; auto.
-    destruct oc; reflexivity.
+    destruct (atomic_id_spec _ _ G) as (A1 & A2 & A3).
+    apply JE_done; auto; try (rewrite E, upd_same; cbn [st cp ran]; auto; destruct oc; reflexivity).
+    intros Hsc. congruence.
   - (* ECancelHit *) split_guards Hg. cbn [fst].
     assert (E : forall y, Jb (eff_cancel_hit c j s) y =
                 upd (Jb s) j (mkJst Cancelling false (Some (now s + j_cdur (jc c j))%N) true) y) by reflexivity.
